@@ -123,8 +123,20 @@ func C07(c *core.Ctx) {
 	nSep := 0
 	for _, fd := range p.Funcs(pk) {
 		ast.Inspect(fd.Decl.Body, func(n ast.Node) bool {
-			rs, ok := n.(*ast.RangeStmt)
-			if !ok {
+			// a loop over the elements: range, or an index loop
+			var rs struct {
+				Body *ast.BlockStmt
+				Key  ast.Expr
+			}
+			switch x := n.(type) {
+			case *ast.RangeStmt:
+				rs.Body, rs.Key = x.Body, x.Key
+			case *ast.ForStmt:
+				rs.Body = x.Body
+				if as, ok := x.Init.(*ast.AssignStmt); ok && len(as.Lhs) == 1 {
+					rs.Key = as.Lhs[0]
+				}
+			default:
 				return true
 			}
 			// separator writes: WriteByte(',') / WriteString(",")
